@@ -706,6 +706,72 @@ theorem iterItems_sorted (rank : String) (emptyP : π → Bool) (body : S → In
 
 end
 
+/-! ### `iterRangeShapeRef` (dense Ref loop) -/
+
+section
+variable {σ S π : Type}
+
+theorem denseItems_mem (rank : String) (dfl : π) (f : Fib Int π) (body : S → Int → π → S × σ) :
+    ∀ (n : Nat) (s : S) (c : Nat) (it : Item σ), it ∈ (denseItems rank dfl f body s c n).2 →
+      (∃ c' pos, it = .use rank "" c' pos) ∨ (∃ s' c' p, it = .sub (body s' c' p).2) ∨ it = .inc := by
+  intro n
+  induction n with
+  | zero => intro s c it h; simp [denseItems] at h
+  | succ n ih =>
+    intro s c it h
+    simp only [denseItems, List.mem_cons] at h
+    rcases h with rfl | rfl | rfl | h
+    · exact Or.inl ⟨_, _, rfl⟩
+    · exact Or.inr (Or.inl ⟨_, _, _, rfl⟩)
+    · exact Or.inr (Or.inr rfl)
+    · exact ih _ _ it h
+
+theorem denseItems_sep (rank : String) (dfl : π) (f : Fib Int π) (body : S → Int → π → S × σ) :
+    ∀ (n : Nat) (s : S) (c : Nat), sepB true (denseItems rank dfl f body s c n).2 = true := by
+  intro n
+  induction n with
+  | zero => intro s c; rfl
+  | succ n ih => intro s c; simpa [denseItems, sepB] using ih _ _
+
+theorem denseItems_subs (rank : String) (dfl : π) (f : Fib Int π) (body : S → Int → π → S × σ) (n : Nat) (s : S) (c : Nat) :
+    ∀ x ∈ subsOf (denseItems rank dfl f body s c n).2, ∃ s' c' p, x = (body s' c' p).2 := by
+  intro x hx
+  have : Item.sub x ∈ (denseItems rank dfl f body s c n).2 := by
+    generalize (denseItems rank dfl f body s c n).2 = items at hx
+    induction items with
+    | nil => simp [subsOf] at hx
+    | cons it rest ih =>
+      cases it with
+      | sub y =>
+        simp only [subsOf, List.mem_cons] at hx
+        rcases hx with rfl | hx
+        · simp
+        · simp [ih hx]
+      | _ => simp only [subsOf] at hx; simp [ih hx]
+  rcases denseItems_mem rank dfl f body n s c _ this with ⟨c', pos, e⟩ | ⟨s', c', p, e⟩ | e
+  · cases e
+  · simp at e; exact ⟨s', c', p, e⟩
+  · cases e
+
+/-- the only key a dense Ref loop touches is the untraceable `(rank, None)`, used plainly -/
+theorem denseItems_sorted (rank : String) (dfl : π) (f : Fib Int π) (body : S → Int → π → S × σ)
+    (n : Nat) (s : S) (c : Nat) (k : Key) : LevelSorted k (denseItems rank dfl f body s c n).2 := by
+  by_cases hit : k.2 = "iter"
+  · apply levelSorted_of_nil
+    apply levelStamps_nokey
+    intro it hi hkey
+    rcases denseItems_mem rank dfl f body n s c it hi with ⟨c', pos, e⟩ | ⟨s', c', p, e⟩ | e <;> subst e <;>
+      simp [itemKey] at hkey
+    rw [← hkey] at hit
+    simp at hit
+  · apply levelSorted_of_le _ _ hit
+    refine (levelStamps_plain k _ {} ?_).1
+    intro it hi hsaved
+    rcases denseItems_mem rank dfl f body n s c it hi with ⟨c', pos, e⟩ | ⟨s', c', p, e⟩ | e <;> subst e <;>
+      simp [isSaved] at hsaved
+
+end
+
 /-! ### `z << src`: the destination-side keys -/
 
 section
